@@ -90,6 +90,19 @@ func (a *idxAnalyzer) entryZone() *zone {
 			}
 		}
 	}
+	// entry snapshots of the integer parameters: entry#p == p at entry (p itself may be advanced later)
+	if a.curID != nil {
+		fl := &ast.FieldList{List: a.curParams}
+		for _, pp := range paramList(fl) {
+			if pp == nil || !isIntType(a.info.TypeOf(pp)) {
+				continue
+			}
+			if k, ok := a.termKey(pp); ok {
+				z.add("entry#"+k, k, 0)
+				z.add(k, "entry#"+k, 0)
+			}
+		}
+	}
 	a.assumeInv(z)
 	return z
 }
@@ -675,17 +688,18 @@ func (a *idxAnalyzer) summariseUnit(id types.Object, sig *types.Signature, ft *a
 			continue
 		}
 		for _, cd := range cands {
-			for _, cond := range []int{-1, okIdx} {
-				if cond == -1 && false {
-					continue
-				}
+			conds := []int{-1}
+			if okIdx >= 0 {
+				conds = append(conds, okIdx)
+			}
+			for _, cond := range conds {
 				already := false
 				for _, f := range facts {
 					if f.res == ri && f.param == cd.param && f.seqKey == cd.seqKey && f.whenOK == -1 {
 						already = true
 					}
 				}
-				if already || (cond == okIdx && okIdx == -1) {
+				if already {
 					continue
 				}
 				all := true
@@ -724,6 +738,9 @@ func (a *idxAnalyzer) summariseUnit(id types.Object, sig *types.Signature, ft *a
 					}
 					l, ok := a.lin(e)
 					if !ok || !a.proveLE(rc.z, linSub(l, a.lenLin(cd.seqKey)), 0) {
+						if idxDebug != "" && strings.Contains(id.Name(), idxDebug) {
+							fmt.Printf("IDXDEBUG summary-fail %s ret@%s res=%s seq=%s\n   %s\n", id.Name(), a.r.pos(rc.rs.Pos()), exprStr(e), cd.seqKey, rc.z.dump())
+						}
 						all = false
 						break
 					}
@@ -762,9 +779,14 @@ func (a *idxAnalyzer) summariseUnit(id types.Object, sig *types.Signature, ft *a
 			continue
 		}
 		for pj, p := range ps {
-			if p == nil || !isIntType(a.info.TypeOf(p)) || assigned[p.Name] {
+			if p == nil || !isIntType(a.info.TypeOf(p)) {
 				continue
 			}
+			pk, okk := a.termKey(p)
+			if !okk {
+				continue
+			}
+			_ = assigned
 			all := len(a.retStates) > 0
 			for _, rc := range a.retStates {
 				if len(rc.rs.Results) != sig.Results().Len() {
@@ -772,7 +794,7 @@ func (a *idxAnalyzer) summariseUnit(id types.Object, sig *types.Signature, ft *a
 					break
 				}
 				lr, ok1 := a.lin(rc.rs.Results[ri])
-				lp, ok2 := a.lin(p)
+				lp, ok2 := &linExpr{t: map[string]int{"entry#" + pk: 1}}, true
 				if !ok1 || !ok2 || !a.proveLE(rc.z, linSub(lp, lr), 0) {
 					all = false
 					break
@@ -964,6 +986,63 @@ func (a *idxAnalyzer) runAll(fds []*ast.FuncDecl) {
 					}
 				}
 			}
+		}
+	}
+	// conditional summaries: for a function with an integer parameter p and a sequence parameter s,
+	// facts res <= len(s) that hold when p <= len(s) at entry (forward-only scanners)
+	a.retCond = map[types.Object][]retFact{}
+	for _, fd := range fds {
+		id, ok := a.info.Defs[fd.Name].(*types.Func)
+		if !ok || fd.Type.Results == nil {
+			continue
+		}
+		ps := paramList(fd.Type.Params)
+		hasIntRes := false
+		sig := id.Type().(*types.Signature)
+		for i := 0; i < sig.Results().Len(); i++ {
+			if isIntType(sig.Results().At(i).Type()) {
+				hasIntRes = true
+			}
+		}
+		if !hasIntRes {
+			continue
+		}
+		var cond []retFact
+		for pi, p := range ps {
+			if p == nil || !isIntType(a.info.TypeOf(p)) {
+				continue
+			}
+			for sj, sp := range ps {
+				if sp == nil || !a.track(a.info.TypeOf(sp)) {
+					continue
+				}
+				have := map[int]bool{}
+				for _, f := range a.retLE[id] {
+					if f.lenOf && f.param == sj && f.whenOK < 0 {
+						have[f.res] = true
+					}
+				}
+				save := a.pre[id]
+				a.pre[id] = append(append([]prePair{}, save...), prePair{ip: pi, sp: sj})
+				a.analyseFunc(fd)
+				if idxDebug != "" && strings.Contains(id.Name(), idxDebug) {
+					fmt.Printf("IDXDEBUG assumed-run %s pi=%d sj=%d pre=%+v facts=%+v\n", id.Name(), pi, sj, a.pre[id], a.retLE[id])
+				}
+				for _, f := range a.retLE[id] {
+					if f.lenOf && f.param == sj && f.whenOK < 0 && !have[f.res] {
+						f.cond, f.needIP, f.needSP = true, pi, sj
+						cond = append(cond, f)
+					}
+				}
+				a.pre[id] = save
+				a.analyseFunc(fd)
+			}
+		}
+		if len(cond) > 0 {
+			a.retCond[id] = cond
+		}
+		if idxDebug != "" {
+			fmt.Printf("IDXDEBUG summaries %s uncond=%+v cond=%+v\n", id.Name(), a.retLE[id], cond)
 		}
 	}
 	a.sites = nil
